@@ -1472,6 +1472,10 @@ static int cfg_parse_internal(cfg_t *cfg, int level, int force_state, cfg_opt_t 
 					break;
 				}
 
+				/* the lookup reports a name it cannot find, but it
+				 * takes the empty name ("" = 1) for a bad argument */
+				if (!*cfg_yylval)
+					cfg_error(cfg, _("no such option '%s'"), cfg_yylval);
 				goto error;
 			}
 
